@@ -29,6 +29,7 @@ type retroGraph struct {
 	white   []bool     // White to move
 	dist    [2][]int32 // [0]: attacker White, [1]: attacker Black
 	edges   int
+	sample  []*tak.Position // every sampleEvery-th unfinished position in breadth-first order (0: none)
 }
 
 // retroKey identifies a position of the game graph: board contents and side to move.  (Reserves
@@ -77,11 +78,8 @@ func termCode(p *tak.Position) int8 {
 
 // buildRetro enumerates everything reachable from root (breadth first) and solves it for both
 // attackers.  Returns nil when the graph has more than maxNodes positions.
-func buildRetro(root *tak.Position, maxNodes int) *retroGraph {
+func buildRetro(root *tak.Position, maxNodes int, sampleEvery int) *retroGraph {
 	g := &retroGraph{cfg: root.Config(), index: map[string]int32{}}
-	type item struct {
-		p *tak.Position
-	}
 	queue := []*tak.Position{root}
 	g.index[retroKey(root)] = 0
 	g.term = append(g.term, termCode(root))
@@ -93,6 +91,9 @@ func buildRetro(root *tak.Position, maxNodes int) *retroGraph {
 		g.succOff = append(g.succOff, int32(len(g.succ)))
 		if g.term[head] != 0 {
 			continue
+		}
+		if sampleEvery > 0 && head%sampleEvery == 0 {
+			g.sample = append(g.sample, p)
 		}
 		for _, m := range p.AllMoves(buf[:0]) {
 			q, err := p.Move(m)
